@@ -1,5 +1,7 @@
 import SynKitModel.Views
+import SynKitModel.ViewsClaim
 import SynKitProofs.ViewsLemmas
+import SynKitProofs.ViewsRawLemmas
 /-!
 # C16 — network views (bipartite graph, reaction strings, species graph) round-trip exactly
 
@@ -19,6 +21,13 @@ What each theorem assumes is in its statement:
 * `StoichKept f N` — `include_stoich`, or all coefficients are 1 (nothing to lose).
 * equality of sides is equality of lists (same order) where the code keeps the order, and
   `List.Perm` where the code re-orders (Python dict equality ignores order).
+
+The last part ("Degraded views") is about the importers on views the exporters do not produce
+(`SynKitModel/ViewsRaw.lean`): the conditions under which the raw streams of the harness claim a
+round trip are the executable predicates of `SynKitModel/ViewsClaim.lean` (`bipRawClaimWith`,
+`bipRawIdsKept`, `speciesRawClaim`, `itemsClaim`, decided by the driver on every case), and the
+theorems below say that each of them implies the round trip, and which conditions on the network
+(`PrefixDisjoint`, `ArcsUniform`, `AllOnes`) make the standard degradations meet them.
 -/
 namespace SynKit.Views
 
@@ -227,5 +236,250 @@ example : ∀ a b r p r' p' ru ru', exampleGenId a r p ru = exampleGenId b r' p'
   · have := congrArg digitsToNat h'.2
     rw [digits_roundtrip, digits_roundtrip] at this
     rw [this]
+
+/-! ## Degraded views (the importers on what the exporters do not produce) -/
+
+/-- **C16, bipartite importer, `kind` stripped.** Take a well-formed network whose string-id view
+with the prefixes `sp` / `rp` keeps ids and coefficients and does not clash (the hypotheses of
+`bipartite_roundtrip`), and assume `PrefixDisjoint sp rp N`: no reaction node id `rp ++ id` starts
+with `sp`. Export, delete the `kind` attribute of ANY set `p` of nodes (all, only the species, only
+the reactions, any subset; or overwrite it with a value `k` the importer does not know), and import
+with the same prefixes (any `default_rule`): the result is the network, in the sense of
+`bipartite_roundtrip`. -/
+theorem ofBipartiteRaw_prefix_roundtrip (f : BipFlags) (N : Net) (genId : GenId) (sp rp d : String)
+    (p : NodeId → Bool) (k : Option String) (hk1 : k ≠ some "species") (hk2 : k ≠ some "reaction")
+    (hN : WfNet N) (hc : NoIdClash f N) (hs : StoichKept f N) (hid : f.includeEdgeIdAttr = true)
+    (hstr : f.integerIds = false) (hsp : f.speciesPrefix = some sp) (hrp : f.reactionPrefix = some rp)
+    (hd : PrefixDisjoint sp rp N) :
+    ∃ N', ofBipartiteRaw genId { speciesPrefix := sp, reactionPrefix := rp, defaultRule := d }
+        ((toBipartite f N).toRaw.setKind p k) = .ok N' ∧
+      N'.rxns.Perm N.rxns ∧
+      (∀ s, s ∈ N'.species ↔ s ∈ N.rxnSpecies) ∧
+      (∀ s, N'.mol.get? s = if f.includeMol = true ∧ s ∈ N.rxnSpecies then N.mol.get? s else none) :=
+  Raw.ofBipartiteRaw_prefix_roundtrip' f N genId sp rp _ rfl rfl rfl p k hk1 hk2 hN hc hs hid hstr hsp hrp hd
+
+/-- `PrefixDisjoint` is what the prefix heuristic needs, node by node: it makes `kindOK` (the
+per-node condition the driver decides) true for every exported node whose `kind` became unusable. -/
+theorem kindOK_of_prefixDisjoint (f : BipFlags) (N : Net) (hN : WfNet N) (hc : NoIdClash f N) (sp rp : String)
+    (hstr : f.integerIds = false) (hsp : f.speciesPrefix = some sp) (hrp : f.reactionPrefix = some rp)
+    (hd : PrefixDisjoint sp rp N) (o : ImpOpts) (ho1 : o.speciesPrefix = sp) (ho2 : o.reactionPrefix = rp)
+    (k : Option String) (hk1 : k ≠ some "species") (hk2 : k ≠ some "reaction") :
+    ∀ n ∈ (toBipartite f N).toRaw.nodes, kindOK o n { n with kind := k } = true := by
+  intro n hn
+  rw [toRaw_nodes] at hn
+  obtain ⟨m, hm, rfl⟩ := List.mem_map.1 hn
+  exact Raw.kindOK_prefix f N hN hc sp rp hstr hsp hrp hd o ho1 ho2 k hk1 hk2 m hm
+
+/-- The guard is needed: with `sp = "R"`, `rp = "R:"` the reaction node `R:r_1` starts with the
+species prefix, and the importer rebuilds nothing from the stripped view. -/
+theorem prefixDisjoint_counterexample :
+    ¬ PrefixDisjoint "R" "R:" { species := ["A"], rxns := [⟨"r_1", "R1", [("A", 1)], []⟩], mol := [] } ∧
+    (match ofBipartiteRaw (fun _ _ _ r => r) { speciesPrefix := "R", reactionPrefix := "R:" }
+      ((toBipartite { speciesPrefix := some "R", reactionPrefix := some "R:", includeEdgeIdAttr := true }
+        { species := ["A"], rxns := [⟨"r_1", "R1", [("A", 1)], []⟩], mol := [] }).toRaw.setKind (fun _ => true) none) with
+      | .ok N' => N'.ids
+      | .error _ => ["error"]) = [] := by
+  constructor <;> decide
+
+/-- **C16, bipartite importer, attribute names (congruence).** Renaming the label / edge-id / mol
+attributes of the nodes by `ρ` and the stoichiometry attribute of the arcs by `σ` (injective
+renamings; `kind` is not an argument of the importer and keeps its name), consistently in the graph
+and in the keyword arguments `species_label_attr`, `reaction_label_attr`, `reaction_edge_id_attr`,
+`stoich_attr`, `mol_attr`, does not change the result. -/
+theorem ofBipartiteRaw_attr_names (genId : GenId) (sp rp d : String) (ρ σ : String → String)
+    (hρ : ∀ a b, ρ a = ρ b → a = b) (hσ : ∀ a b, σ a = σ b → a = b) (hk : ρ "kind" = "kind")
+    (a : AttrNames) (g : ABGraph) :
+    (g.rename ρ σ).read (a.rename ρ σ) = g.read a ∧
+    ofBipartiteAttr genId sp rp d (a.rename ρ σ) (g.rename ρ σ) = ofBipartiteAttr genId sp rp d a g :=
+  ⟨Raw.read_rename ρ σ hρ hσ hk a g, Raw.ofBipartiteAttr_rename genId sp rp d ρ σ hρ hσ hk a g⟩
+
+/-- … and `default_rule` is the rule of a reaction exactly when its node has no rule attribute. -/
+theorem ofBipartiteRaw_default_rule (o : ImpOpts) (g : RBGraph) (sp : List NodeId) (r : NodeId) :
+    (rawOfRNode o g sp r).rule =
+      match (g.node? r).bind (·.rxLabel) with
+      | some l => l
+      | none => o.defaultRule :=
+  Raw.rawOfRNode_rule o g sp r
+
+/-- **What the bipartite importer reads.** Two graphs with the same nodes and arcs (two readings
+`φ`, `φ'` / `ψ`, `ψ'` of the same index lists) that are classified alike give the same network as
+soon as they agree on: the label (attribute, else `str(id)`) and the molecule label of the nodes
+classified as species; the rule (attribute, else `default_rule`) and the id (attribute, else
+synthesised) of the nodes classified as reactions; the ends and the coefficient (attribute, else 1)
+of every arc. Everything else — other attributes, the attribute names, the `kind` of a node that
+the prefixes classify — is irrelevant. -/
+theorem ofBipartiteRaw_reads_only {ι κ : Type} (gen gen' : GenId) (o o' : ImpOpts)
+    (zs : List ι) (φ φ' : ι → RNode) (ws : List κ) (ψ ψ' : κ → BEdge)
+    (hid : ∀ z ∈ zs, (φ' z).id = (φ z).id)
+    (hcl : classify o' (Raw.mkG zs φ' ws ψ') = classify o (Raw.mkG zs φ ws ψ))
+    (hsp : ∀ z ∈ zs, (φ z).id ∈ (classify o (Raw.mkG zs φ ws ψ)).1 →
+      (φ' z).spLabel.getD (φ z).id.toStr = (φ z).spLabel.getD (φ z).id.toStr ∧
+      effMol o' (φ' z) = effMol o (φ z))
+    (hrx : ∀ z ∈ zs, (φ z).id ∈ (classify o (Raw.mkG zs φ ws ψ)).2 →
+      (φ' z).rxLabel.getD o'.defaultRule = (φ z).rxLabel.getD o.defaultRule ∧
+      ∀ r p ru, Raw.effId gen' (φ' z) r p ru = Raw.effId gen (φ z) r p ru)
+    (hed : ∀ w ∈ ws, (ψ' w).src = (ψ w).src ∧ (ψ' w).dst = (ψ w).dst ∧
+      (ψ' w).stoich.getD 1 = (ψ w).stoich.getD 1) :
+    ofBipartiteRaw gen' o' (Raw.mkG zs φ' ws ψ') = ofBipartiteRaw gen o (Raw.mkG zs φ ws ψ) :=
+  Raw.ofBipartiteRaw_congr gen gen' o o' zs φ φ' ws ψ ψ' hid hcl hsp hrx hed
+
+/-- **C16, bipartite importer, claim condition ⇒ round trip (ids kept).** `bipRawClaimWith mol f o
+N g'` is what `views.claim_bip_raw` decides for a degraded graph `g'` as the importer reads it
+(kinds stripped where the prefixes decide, labels / rules / coefficients / molecule labels read
+back through the defaults, attributes renamed, …). If moreover every reaction node still carries
+its edge id, the importer returns the reactions of `N` with their ids; `mol` says whether the
+molecule labels are expected back. -/
+theorem bipRawClaim_roundtrip (mol : Bool) (f : BipFlags) (o : ImpOpts) (N : Net) (g' : RBGraph)
+    (genId : GenId) (h : bipRawClaimWith mol f o N g' = true) (hk : bipRawIdsKept f N g' = true) :
+    ∃ N', ofBipartiteRaw genId o g' = .ok N' ∧ N'.rxns.Perm N.rxns ∧
+      (∀ s, s ∈ N'.species ↔ s ∈ N.rxnSpecies) ∧
+      (∀ s, N'.mol.get? s =
+        if (f.includeMol && mol) = true ∧ s ∈ N.rxnSpecies then N.mol.get? s else none) :=
+  Raw.bipRawClaim_roundtrip_ids mol f o N g' genId h hk
+
+/-- **… ids missing on some or all reaction nodes.** The missing ids are synthesised from
+`hash(...)` (the parameter `genId`); provided the synthesised ids collide neither with each other
+nor with an id of the network, everything but the ids is reproduced. -/
+theorem bipRawClaim_roundtrip_noid (mol : Bool) (f : BipFlags) (o : ImpOpts) (N : Net) (g' : RBGraph)
+    (genId : GenId) (h : bipRawClaimWith mol f o N g' = true)
+    (hgen : ∀ a b r p r' p' ru ru', genId a r p ru = genId b r' p' ru' → a = b)
+    (hfresh : ∀ a r p ru, genId a r p ru ∉ N.ids) :
+    ∃ N', ofBipartiteRaw genId o g' = .ok N' ∧
+      (N'.rxns.map Rxn.content).Perm (N.rxns.map Rxn.content) ∧
+      (∀ s, s ∈ N'.species ↔ s ∈ N.rxnSpecies) ∧
+      (∀ s, N'.mol.get? s =
+        if (f.includeMol && mol) = true ∧ s ∈ N.rxnSpecies then N.mol.get? s else none) :=
+  Raw.bipRawClaim_roundtrip_noid mol f o N g' genId h hgen hfresh
+
+/-- **C16, species-graph importer, claim condition ⇒ round trip.** `speciesRawClaim b N g'` is what
+`views.claim_species_raw` decides for a degraded species graph `g'` as the importer reads it (nodes
+relabelled, labels read back through `str(node)`, `via` in any form that still names the reactions,
+per-reaction maps or legacy values or the default 1 giving the right coefficients). Then the
+importer returns the reaction ids of `N`, each with the same reactants and products (as dicts), for
+any `default_rule` / `mol_attr`. -/
+theorem speciesRawClaim_roundtrip (b : Bool) (N : Net) (g' : RSGraph) (genArc : GenArc) (d : String)
+    (molOn : Bool) (h : speciesRawClaim b N g' = true) :
+    ∃ N', ofSpeciesGraphRaw genArc d molOn g' = .ok N' ∧ N'.ids.Perm N.ids ∧
+      ∀ e ∈ N.rxns, ∃ e' ∈ N'.rxns, e'.id = e.id ∧
+        e'.reactants.Perm e.reactants ∧ e'.products.Perm e.products :=
+  Raw.speciesRawClaim_roundtrip b N g' genArc d molOn h
+
+/-- **C16, species-graph importer, forms of `via`.** (1) A list, a tuple and a set are the same
+`ViaAttr.seq` (in its iteration order) to the model; the id of a single reaction handed over bare
+(`via="r_1"` instead of `{"r_1"}`) gives exactly the same network. (2) Arcs without `via` give one
+synthetic reaction per arc, `label(u) -> label(v)` with the arc's coefficients (per-reaction map
+under the synthetic id, else legacy value, else 1), the first of the arc's rules or `default_rule`,
+and the id `genArc u v` — provided those ids are distinct and the coefficients positive. -/
+theorem ofSpeciesGraphRaw_via_forms (genArc : GenArc) (d : String) (molOn : Bool) (g : RSGraph) :
+    ((∀ a ∈ g.edges, a.via ≠ .seq [""]) →
+      ofSpeciesGraphRaw genArc d molOn (g.mapEdges REdge.viaScalar) = ofSpeciesGraphRaw genArc d molOn g) ∧
+    ((g.edges.map fun a => genArc a.src a.dst).Nodup →
+      (∀ a ∈ g.edges, 0 < coeffFor a.rMap a.stoichR (genArc a.src a.dst) ∧
+        0 < coeffFor a.pMap a.stoichP (genArc a.src a.dst)) →
+      ∃ N', ofSpeciesGraphRaw genArc d molOn (g.mapEdges REdge.dropVia) = .ok N' ∧
+        N'.rxns = g.edges.map fun a =>
+          (⟨genArc a.src a.dst, normRule ((a.rules.toList.foldl setAdd []).head?.getD d),
+            [(g.labelOf a.src, coeffFor a.rMap a.stoichR (genArc a.src a.dst))],
+            [(g.labelOf a.dst, coeffFor a.pMap a.stoichP (genArc a.src a.dst))]⟩ : Rxn)) :=
+  ⟨Raw.ofSpeciesGraphRaw_viaScalar genArc d molOn g, Raw.ofSpeciesGraphRaw_dropVia genArc d molOn g⟩
+
+/-- **C16, species-graph importer, legacy coefficients.** For a well-formed two-sided network:
+(1) without the per-reaction maps (`stoich_r_map` and / or `stoich_p_map` deleted) the legacy
+per-arc values `stoich_r` / `stoich_p` reproduce ids and stoichiometry when `ArcsUniform N` — every
+two reactions sharing an arc carry the same coefficients there; (2) the legacy values are never
+needed while the maps are there; (3) with both absent every coefficient is read as 1, which
+reproduces the network when `AllOnes N`. (`legacy_counterexample`: (1) fails without uniformity.) -/
+theorem ofSpeciesGraphRaw_legacy_stoich (b : Bool) (N : Net) (genArc : GenArc) (d : String) (molOn : Bool)
+    (hN : WfNet N) (h2 : TwoSided N) (φ : REdge → REdge)
+    (hφ : (ArcsUniform N ∧ ∃ r p, φ = REdge.dropMaps r p) ∨ φ = REdge.dropLegacy ∨
+      (AllOnes N ∧ ∃ r p, φ = fun a => (a.dropMaps r p).dropLegacy)) :
+    ∃ N', ofSpeciesGraphRaw genArc d molOn ((toSpeciesGraph b N).toRaw.mapEdges φ) = .ok N' ∧
+      N'.ids.Perm N.ids ∧
+      ∀ e ∈ N.rxns, ∃ e' ∈ N'.rxns, e'.id = e.id ∧
+        e'.reactants.Perm e.reactants ∧ e'.products.Perm e.products := by
+  apply Raw.speciesRawClaim_roundtrip b N
+  rcases hφ with ⟨hu, r, p, rfl⟩ | rfl | ⟨h1, r, p, rfl⟩
+  · exact Raw.claim_dropMaps b N hN h2 hu r p
+  · exact Raw.claim_dropLegacy b N hN h2
+  · exact Raw.claim_dropBoth b N hN h2 h1 r p
+
+/-- With both absent the coefficient is 1; without the map it is the legacy value. -/
+theorem coeffFor_defaults (c : Nat) (eid : String) :
+    coeffFor none none eid = 1 ∧ coeffFor none (some c) eid = c := ⟨rfl, rfl⟩
+
+/-- Uniformity is needed: two reactions `A -> B` and `2A -> B` share the arc `(A, B)`; without the
+maps the legacy `stoich_r = min(1, 2)` is wrong for the second one, and the claim condition fails. -/
+theorem legacy_counterexample :
+    ¬ ArcsUniform Raw.exNonUniform ∧
+    speciesRawClaim false Raw.exNonUniform
+      ((toSpeciesGraph false Raw.exNonUniform).toRaw.mapEdges (REdge.dropMaps true true)) = false :=
+  ⟨Raw.exNonUniform_not_uniform, Raw.exNonUniform_dropMaps_not_claimed⟩
+
+/-- **C16, `parse_rxns` input forms.** (1) A mapping `line -> rule`, a list of `(line, rule)` tuples
+and `rules=` that denote the same pairs are the same call; `rules=` of another length is the
+documented `ValueError`; no explicit rules at all is the plain parse. (2) Under the claim condition
+`itemsClaim` — the lines are the lines the printer prints for `N`, and either they carry no suffix
+and every rule is given explicitly, or they carry the rule suffix, suffix parsing is on and the
+suffix wins (`prefer_suffix`, or no explicit rule) — parsing the items is literally parsing the
+lines printed with the rule suffix, hence (`strings_roundtrip`) reproduces rule and sides of every
+reaction. The precedence itself: an explicit rule wins unless `prefer_suffix`, `parse_rule_from_suffix`
+and the line has a `| rule=` suffix (`parseItemsFrom`, by definition). -/
+theorem parseItemsFrom_forms (f : StrFlags) (ps pf : Bool) (d : String) (N : Net)
+    (items : List (List Char × Option String)) :
+    (parseRxnsInput ps pf d (.mapping items) = parseRxnsInput ps pf d (.tuples items) ∧
+     parseRxnsInput ps pf d (.lines (items.map (·.1)) (some (items.map (·.2)))) =
+       parseRxnsInput ps pf d (.tuples items)) ∧
+    (itemsClaim f ps pf N items = true →
+      parseRxnsInput ps pf d (.tuples items) = parseLines (fmtLines { f with includeRule := true } N) ∧
+      ∃ N', parseRxnsInput ps pf d (.tuples items) = .ok N' ∧
+        N'.rxns.map Rxn.content = (printedRxns f N).map Rxn.sortedContent ∧
+        (N'.rxns.map Rxn.content).Perm (N.rxns.map Rxn.sortedContent)) := by
+  refine ⟨Raw.parseRxnsInput_forms ps pf d items, fun h => ⟨?_, ?_⟩⟩
+  · have := Raw.itemsClaim_parse f ps pf d N items h
+    rw [← this]
+    unfold parseRxnsInput ItemsInput.pairs
+    simp only []
+    cases parseItemsFrom ps pf d {} items <;> rfl
+  · obtain ⟨st', h1, h2, h3⟩ := Raw.itemsClaim_roundtrip f ps pf d N items h
+    refine ⟨st'.net, ?_, h2, h3⟩
+    unfold parseRxnsInput ItemsInput.pairs
+    simp only [h1]
+
+/-- `rules=` of another length: the documented `ValueError`; no rules: the plain parse. -/
+theorem parseRxnsInput_lines (ps pf : Bool) (d : String) (ls : List (List Char)) :
+    (∀ rs : List (Option String), ls.length ≠ rs.length →
+      parseRxnsInput ps pf d (.lines ls (some rs)) = .error .valueError) ∧
+    parseRxnsInput ps pf d (.lines ls none) =
+      (match parseLinesFrom ps d {} ls with
+        | .ok st => .ok st.net
+        | .error e => .error e) :=
+  ⟨fun rs h => Raw.parseRxnsInput_length_mismatch ps pf d ls rs h, Raw.parseRxnsInput_lines_none ps pf d ls⟩
+
+/-! ### Non-vacuity of the degraded-view theorems -/
+
+example : PrefixDisjoint "S:" "R:" exampleNet := by decide
+example : ¬ ArcsUniform exampleNet := by decide
+example : ArcsUniform Raw.exShared ∧ WfNet Raw.exShared ∧ TwoSided Raw.exShared :=
+  ⟨by decide, (Raw.wfNetB_iff _).1 (by decide), (Raw.twoSidedB_iff _).1 (by decide)⟩
+
+/-- All kinds stripped, species labels dropped... the claim condition holds on a concrete degraded
+graph (kinds stripped everywhere, coefficients kept, ids kept), and the importer really returns
+the ids. -/
+example : bipRawClaimWith true { includeEdgeIdAttr := true, includeMol := true } {} exampleNet
+    ((toBipartite { includeEdgeIdAttr := true, includeMol := true } exampleNet).toRaw.setKind (fun _ => true) none) = true ∧
+    bipRawIdsKept { includeEdgeIdAttr := true, includeMol := true } exampleNet
+    ((toBipartite { includeEdgeIdAttr := true, includeMol := true } exampleNet).toRaw.setKind (fun _ => true) none) = true := by
+  constructor <;> decide
+
+example : (match ofBipartiteRaw (fun _ _ _ r => r) {}
+    ((toBipartite { includeEdgeIdAttr := true } exampleNet).toRaw.setKind (fun _ => true) none) with
+    | .ok N' => N'.ids | .error _ => []) = ["R1_7", "r_1", "r_2"] := by decide
+
+example : speciesRawClaim true Raw.exShared
+    ((toSpeciesGraph true Raw.exShared).toRaw.mapEdges (REdge.dropMaps true true)) = true := by decide
+
+example : itemsClaim { includeRule := false } true false exampleNet
+    [("5A + B >> 2B".toList, some "R1"), ("2A + Fe2 >> 3B + Fe2".toList, some "R1"),
+     ("A >> 12B + 10H2O".toList, some "R2")] = true := by decide
 
 end SynKit.Views
